@@ -3,6 +3,7 @@ precedence), a fully parenthesised printer (for SQLite evaluation) and enumerati
 
 Tree forms:  ('leaf', text) | ('neg', x) | ('not', x) | ('bin', op, l, r) | ('like', x, p)
              | ('in', x, [items]) | ('between', x, lo, hi) | ('isnull', x) | ('isnotnull', x)
+             | ('notin', x, [items]) | ('notlike', x, p)
 A tree node may be wrapped as ('paren', node) to denote redundant user-written parentheses."""
 
 # precedence levels, tightest = highest
@@ -14,8 +15,8 @@ BIN_OPS = {'*': P_MUL, '/': P_MUL, '%': P_MUL, '+': P_ADD, '-': P_ADD,
 
 # operator kinds: (name, arity of sub-expression slots)
 ALL_KINDS = ['neg', 'not', '*', '/', '%', '+', '-', '=', '!=', '<', '<=', '>', '>=', 'AND', 'OR',
-             'like', 'in', 'between', 'isnull', 'isnotnull']
-REP_KINDS = ['neg', 'not', '*', '%', '+', '-', '=', '<', 'AND', 'OR', 'like', 'in', 'between', 'isnull']
+             'like', 'in', 'between', 'isnull', 'isnotnull', 'notin', 'notlike']
+REP_KINDS = ['neg', 'not', '*', '%', '+', '-', '=', '<', 'AND', 'OR', 'like', 'in', 'between', 'isnull', 'notin']
 
 
 def opclass(kind):
@@ -29,6 +30,8 @@ def opclass(kind):
         return 'cmp'
     if kind in ('isnull', 'isnotnull'):
         return 'isnull'
+    if kind in ('notin', 'notlike'):
+        return kind
     return kind.lower()
 
 
@@ -52,7 +55,7 @@ def prec(t):
 
 
 def nslots(kind):
-    if kind in ('neg', 'not', 'isnull', 'isnotnull', 'in'):
+    if kind in ('neg', 'not', 'isnull', 'isnotnull', 'in', 'notin'):
         return 1
     if kind == 'between':
         return 3
@@ -62,12 +65,12 @@ def nslots(kind):
 def make(kind, subs):
     if kind in ('neg', 'not', 'isnull', 'isnotnull'):
         return (kind, subs[0])
-    if kind == 'in':
-        return ('in', subs[0], [('leaf', '1'), ('leaf', '2')])
+    if kind in ('in', 'notin'):
+        return (kind, subs[0], [('leaf', '1'), ('leaf', '2')])
     if kind == 'between':
         return ('between', subs[0], subs[1], subs[2])
-    if kind == 'like':
-        return ('like', subs[0], subs[1])
+    if kind in ('like', 'notlike'):
+        return (kind, subs[0], subs[1])
     return ('bin', kind, subs[0], subs[1])
 
 
@@ -79,7 +82,7 @@ def children(t):
         return [t[1]]
     if k in ('neg', 'not', 'isnull', 'isnotnull'):
         return [t[1]]
-    if k == 'in':
+    if k in ('in', 'notin'):
         return [t[1]]
     if k == 'bin':
         return [t[2], t[3]]
@@ -101,8 +104,8 @@ def strip_parens(t):
         return t
     if k == 'paren':
         return strip_parens(t[1])
-    if k == 'in':
-        return ('in', strip_parens(t[1]), t[2])
+    if k in ('in', 'notin'):
+        return (k, strip_parens(t[1]), t[2])
     if k == 'bin':
         return ('bin', t[1], strip_parens(t[2]), strip_parens(t[3]))
     return (k,) + tuple(strip_parens(c) for c in t[1:])
@@ -122,7 +125,7 @@ def need_parens(parent, child, slot):
     if pk == 'not':
         # NOT x : x may be any comparison/predicate or another NOT
         return pc < P_NOT
-    if pk in ('like', 'between', 'isnull', 'isnotnull', 'in'):
+    if pk in ('like', 'between', 'isnull', 'isnotnull', 'in', 'notin', 'notlike'):
         # operands of predicates are arithmetic-level expressions
         return pc <= P_CMP
     # binary
@@ -171,6 +174,10 @@ def minimal(t, marks=None, path=()):
         return f'{sub(t[1], 0)} LIKE {sub(t[2], 1)}'
     if k == 'in':
         return f'{sub(t[1], 0)} IN ({", ".join(i[1] for i in t[2])})'
+    if k == 'notin':
+        return f'{sub(t[1], 0)} NOT IN ({", ".join(i[1] for i in t[2])})'
+    if k == 'notlike':
+        return f'{sub(t[1], 0)} NOT LIKE {sub(t[2], 1)}'
     if k == 'between':
         return f'{sub(t[1], 0)} BETWEEN {sub(t[2], 1)} AND {sub(t[3], 2)}'
     if k == 'isnull':
@@ -197,6 +204,10 @@ def full(t):
         return f'({full(t[1])} LIKE {full(t[2])})'
     if k == 'in':
         return f'({full(t[1])} IN ({", ".join(full(i) for i in t[2])}))'
+    if k == 'notin':
+        return f'({full(t[1])} NOT IN ({", ".join(full(i) for i in t[2])}))'
+    if k == 'notlike':
+        return f'({full(t[1])} NOT LIKE {full(t[2])})'
     if k == 'between':
         return f'({full(t[1])} BETWEEN {full(t[2])} AND {full(t[3])})'
     if k == 'isnull':
@@ -245,8 +256,8 @@ def name_leaves(t, names):
         return ('leaf', next(names)) if t[1] is None else t
     if k == 'paren':
         return ('paren', name_leaves(t[1], names))
-    if k == 'in':
-        return ('in', name_leaves(t[1], names), t[2])
+    if k in ('in', 'notin'):
+        return (k, name_leaves(t[1], names), t[2])
     if k == 'bin':
         l = name_leaves(t[2], names)
         r = name_leaves(t[3], names)
@@ -270,8 +281,8 @@ def add_user_parens(t, rng, p=0.25):
     k = t[0]
     if k == 'leaf':
         return ('paren', t) if rng.random() < p / 3 else t
-    if k == 'in':
-        n = ('in', add_user_parens(t[1], rng, p), t[2])
+    if k in ('in', 'notin'):
+        n = (k, add_user_parens(t[1], rng, p), t[2])
     elif k == 'bin':
         n = ('bin', t[1], add_user_parens(t[2], rng, p), add_user_parens(t[3], rng, p))
     else:
